@@ -358,12 +358,14 @@ def reeval_raises(repo: Repo, rep):
         "GenericValue._re_eval: a managed leaf whose argument no longer equals the first evaluation raises UsageError (raise on the false edge of "
         "`old == value`), containers recurse over their items; DictValue._re_eval calls the generic check and recurses into the sub-snapshots present in both maps",
     )
-    f = repo.find_func("_snapshot/generic_value.py", "GenericValue._re_eval.re_eval")
-    if f is None:
-        rep.undecided("R-REEVAL-RAISES", "nested re_eval not found")
+    from .common import reeval_worker
+
+    w = reeval_worker(repo)
+    if w is None:
+        rep.undecided("R-REEVAL-RAISES", "the recursive re-evaluation check of generic_value.py was not found")
         return
+    f, old, _node_p, val, entry = w
     cfg = cfg_of(f)
-    old, val = f.params[0], f.params[2] if len(f.params) > 2 else None
     raises = [n for n in cfg.stmts(ast.Raise) if "UsageError" in norm(n.ast)]
     eqs = [c for c in cfg.conds() if isinstance(c.ast, ast.Compare) and len(c.ast.ops) == 1 and isinstance(c.ast.ops[0], (ast.Eq, ast.NotEq)) and {norm(c.ast.left), norm(c.ast.comparators[0])} == {old, val}]
     if not raises or not eqs:
@@ -389,8 +391,9 @@ def reeval_raises(repo: Repo, rep):
     else:
         rep.violation("R-REEVAL-RAISES", f, f.node, "re-evaluation does not recurse into container items: a changed element of a list/dict/call argument goes unnoticed", construct="no-recursion")
     outer = repo.func("_snapshot/generic_value.py::GenericValue._re_eval")
-    calls = [c for c in body_nodes(outer.node) if isinstance(c, ast.Call) and isinstance(c.func, ast.Name) and c.func.id == "re_eval"]
-    if any(len(c.args) >= 3 and "_old_value" in norm(c.args[0]) for c in calls):
+    calls = [entry] if entry is not None else []
+    oi = f.params.index(old)
+    if any(len(c.args) > oi and "_old_value" in norm(c.args[oi]) for c in calls):
         rep.ok("R-REEVAL-RAISES", outer, calls[0], "_re_eval checks the stored old value against the new argument")
     else:
         rep.violation("R-REEVAL-RAISES", outer, outer.node, "GenericValue._re_eval does not start the check from the stored old value", construct="entry")
